@@ -41,7 +41,7 @@ func vhValidBuild() vhValidPre {
 	}
 	pre := vhValidPre{r: v, now: now, auto: auto}
 	if auto {
-		pre.first = []uint64{0, 9}[verifChoose("first", 2)]
+		pre.first = []uint64{0, 9, 255, 65535}[verifChoose("first", verifParam("FIRSTS", 2))]
 	}
 	count, head := 0, 0
 	if l > 0 {
@@ -214,6 +214,15 @@ func vhC09Put() {
 		verifCover("C09/Put/collects")
 		for k := 0; k < len(p.alpha)-len(base); k++ {
 			verifAssert(!vhValidReachable(v, p.alpha[k].msg), "C18/Valid/collected-message-unreachable")
+		}
+	}
+	// bookkeeping of automatic collection: the interval restarts only when a collection ran
+	if ntop > 0 {
+		switch {
+		case lastGCBefore.IsZero() || collects:
+			verifAssert(v.lastGC.Equal(p.now), "C09/Put/collection-time-recorded")
+		default:
+			verifAssert(v.lastGC.Equal(lastGCBefore), "C09/Put/gc-interval-not-restarted-without-a-collection")
 		}
 	}
 	valid := ntop > 0 && (p.auto != hasID)
